@@ -115,6 +115,15 @@ def analyze_type(job, sdl, schema, pkg, rt, ns, t, ci, known, out):
     def add(sig, what, value, extra=None):
         out["findings"].append({"sig": sig, "what": what, "replay": {"schema": sdl, "config": job.get("config") or {}, "type": t.name, "value": value, **(extra or {})}})
 
+    # a field whose Python name is an attribute of pydantic's BaseModel (model_dump, copy, json, ...) replaces that attribute on the
+    # instance: the model may still validate, but it can no longer be dumped / sent
+    import pydantic as _pyd
+
+    _attrs = {a for a in dir(_pyd.BaseModel) if not a.startswith("_")}
+    for f in pkg.all_fields(ci).values():
+        if f.name in _attrs:
+            add({"q": "input_shadow", "problem": "field_shadows_basemodel_attribute", "name": f.name},
+                f"{ci.name}.{f.name} (GraphQL name {f.key!r}) shadows pydantic.BaseModel.{f.name}", None, {"q": "input_shadow", "field": f.name})
     # image of configured scalars on the input side: a field whose GraphQL type is (a list of) a configured scalar must be typed with
     # the configured Python type, never Any (with Any neither the type nor the serializer applies)
     if ctx.scalar_domain:
